@@ -33,7 +33,7 @@ LAKE_TARGETS = ['PyRt', 'Gen', 'Spec', 'Lemmas', 'Props', 'driver']
 def inputs_hash():
     h = hashlib.sha256()
     h.update(common.tree_hash().encode())
-    pats = ['tools/py2lean/*.py', 'tools/gen_props.py', 'tools/gen_gs1.py', 'tools/prepare.py', 'lean/lakefile.toml',
+    pats = ['tools/py2lean/*.py', 'tools/gen_props.py', 'tools/gen_gs1.py', 'tools/gen_c11.py', 'lean/Props/C11data/[A-Z]*.lean', 'lean/Props/C16/*.lean', 'tools/prepare.py', 'lean/lakefile.toml',
             'lean/PyRt/*.lean', 'lean/Spec/*.lean', 'lean/Lemmas/*.lean', 'lean/Props/*.lean',
             'lean/Driver/Main.lean', 'lean/Driver/[A-CE-Z]*.lean', 'lean/*.lean', 'obligations/*.json']
     for pat in pats:
@@ -130,7 +130,7 @@ HYGIENE_RE = re.compile(r'\b(sorry|admit|native_decide|bv_decide|implemented_by)
 def hygiene():
     """grep proof and model sources for forbidden constructs (outside comments)"""
     hits = []
-    for pat in ['PyRt/*.lean', 'Spec/*.lean', 'Lemmas/*.lean', 'Props/*.lean', 'Props/Auto/*.lean', 'Gen/*.lean']:
+    for pat in ['PyRt/*.lean', 'Spec/*.lean', 'Lemmas/*.lean', 'Props/*.lean', 'Props/*/*.lean', 'Gen/*.lean']:
         for path in sorted(glob.glob(os.path.join(LEAN, pat))):
             in_block = 0
             for i, line in enumerate(open(path, encoding='utf-8'), 1):
@@ -181,6 +181,10 @@ def prepare(verbose=False):
         if os.path.exists(gg):
             rcg, outg, secsg = run([PY, gg], cwd=common.VERIF)
             res['steps']['gen_gs1'] = {'rc': rcg, 's': secsg, 'out': outg[-500:]}
+        gc = os.path.join(common.VERIF, 'tools', 'gen_c11.py')
+        if os.path.exists(gc):
+            rcc, outc, secsc = run([PY, gc], cwd=common.VERIF)
+            res['steps']['gen_c11'] = {'rc': rcc, 's': secsc, 'out': outc[-500:]}
         gp = os.path.join(common.VERIF, 'tools', 'gen_props.py')
         if os.path.exists(gp):
             rc3, out3, secs3 = run([PY, gp])
